@@ -1,4 +1,35 @@
 reg("C13", "simulations reproducible from their seed, conditioning honoured",
-    parts=[dict(harness="c13_simrepro", cases=dict(quick=600, thorough=8000), timeout_case=60)],
-    rule="placeholder",
-    require=dict(distinct=50))
+    parts=[dict(harness="c13_simrepro", cases=dict(quick=1000, thorough=16000), timeout_case=60)],
+    rule="case = one configuration of one simulator family drawn from the case PRNG: simtub 45% (1-3 D, 1-2 variables, 1-2 "
+         "structures of {spherical, exponential, gaussian, cubic, matern, stable, sincard, besselj} + optional nugget, "
+         "anisotropy/rotation, grid or point target, non-conditional / conditional with unique or moving neighbourhood, "
+         "known mean or universality condition, heterotopic data, nbsimu 1-5, nbtuba in {1,2,3,5,10,30,100,200}), simfft 8%, "
+         "simulateSPDE 5% (global seed set immediately before the call), gibbs_sampler 15% (1-2 variables, bounds: free / "
+         "one-sided / two-sided / equality / tight / tight far in the tail / mutually consistent, unique or moving, "
+         "multi-mono), law_gaussian_between_bounds 7%, simpgs 12% and simbipgs 6% (random lithotype rules of 2-5 facies on "
+         "one or two GRFs, conditional data on grid nodes), generator-level seed semantics 2%. Seeds: 1, small, library "
+         "defaults, large, 20000158/20000160 (around the modulus of the congruential generator), > 2^31/105 (the product "
+         "wraps), 2^31-1, and <= 0 ('do not reseed': the documented global seed is then set before the call). Each "
+         "configuration is executed 5 times on freshly built inputs: reference, back-to-back, after unrelated use of the "
+         "generator, in a pristine process forked before the worker touched the library, and with another seed; outputs "
+         "are compared bit for bit. On the reference run: number of created columns, simulation ranks i != j differ, data "
+         "honoured at coinciding targets (1e-7 relative), |S - K| <= 50 sK + 1e-6 against a long-double reference "
+         "(co)kriging (targets 2e-4 away from a datum make this sharp; unique neighbourhood, nbtuba >= 10), every Gibbs / "
+         "truncated-Gaussian value inside [L,U] (1e-10; equalities exact), plurigaussian facies at data nodes = observed "
+         "facies, plurigaussian Gaussians at data nodes inside the thresholds of the observed facies (own threshold "
+         "computation, 1e-3). distinct = distinct discrete signatures (family, dimension, variables, target kind, "
+         "conditioning, neighbourhood, structure, nbsimu, nbtuba, seed class, ...) with at least one oracle evaluation",
+    level="exploration",
+    require=dict(distinct=150,
+                 oracles=dict(quick={"repro-b2b": 500, "repro-perturbed": 450, "repro-fresh": 450, "seeds-differ": 450,
+                                     "ranks-differ": 700, "cond-exact": 800, "krig-residual": 100, "bounds": 600,
+                                     "facies-at-data": 40, "ncols": 450},
+                              thorough={"repro-b2b": 8000, "repro-perturbed": 7000, "repro-fresh": 7000,
+                                        "seeds-differ": 7000, "ranks-differ": 10000, "cond-exact": 10000,
+                                        "krig-residual": 1500, "bounds": 9000, "facies-at-data": 600, "ncols": 7000})),
+    assumptions=["Model::eval (pointwise covariance) is trusted to build the reference kriging of the cond-vs-kriging oracle",
+                 "a 'pristine process' is a child of a zygote forked before the first library call of the worker",
+                 "turning-bands fields are close enough to Gaussian fields of the model covariance for |S-K| <= 50 sK "
+                 "(calibrated: max observed ratio ~0.1-0.2)",
+                 "SPDE conditional simulations are not required to honour data exactly (mesh approximation): only "
+                 "reproducibility / seeds / ranks are monitored for simulateSPDE"])
